@@ -40,6 +40,10 @@ def gen(r, n):
     # (in running time) and the stubborn test is killed then
     scs.append(dict(u=150, period=20, ta=None, grace=4, leak=0.7, dur=16, on_term="ignore",
                     sigs=[(1.5, "TERM"), (2.5, "TSTP"), (4.5, "CONT")]))
+    # SIGQUIT is a shutdown signal whatever nextest's debugging switches are set to in the environment, short of
+    # the documented "1"
+    scs.append(dict(u=150, period=20, ta=None, grace=2, leak=0.7, dur=9, on_term="ignore", sigs=[(1.5, "QUIT")],
+                    env={"__NEXTEST_SIGQUIT_AS_INFO": "0"}))
     # a setup script running when the signal comes
     scs.append(dict(u=150, period=20, ta=None, grace=2, leak=0.7, dur=9, on_term="ignore", sigs=[(1.5, "INT")], as_script=True))
     scs.append(dict(u=150, period=20, ta=None, grace=3, leak=0.7, dur=9, on_term="ignore", sigs=[(1.5, "HUP"), (2.5, "HUP")], as_script=True))
@@ -96,7 +100,7 @@ def run(tier, seed):
         chk.violation("broken-obligation", "e2e-build", dict(error=str(ex)[-3000:]), no_input=True)
         return chk.finish(gate, "make -C coq Properties/C11.vo", [])
     r = vlib.rng_for(seed, PROP)
-    scs = gen(r, 84 if tier == "thorough" else 28)
+    scs = gen(r, 84 if tier == "thorough" else 29)
     life_scs = []
     if U.check_family(chk, rig, scs, U.oracle_C11, "c11"):
         # the whole life of a unit: shutdown signals landing in the retry delay, or consumed by an attempt that
